@@ -2,6 +2,7 @@ package main
 
 import (
 	"crypto/sha256"
+	"sort"
 	"os"
 	"path/filepath"
 	"regexp"
@@ -54,6 +55,7 @@ type Engine struct {
 	debugDeadlock bool
 	concreteClock bool
 	acqOnly       bool
+	modPrefix     string
 	lenient    bool
 	lazyGlobals []int
 	deadlocks  int
@@ -122,6 +124,25 @@ func (e *Engine) yield(st *State) {
 				g.blocked = ""
 				st.trace = append(st.trace, fmt.Sprintf("quiescence -> g%d", j))
 				e.switchTo(st, j)
+				panic(resched{})
+			}
+		}
+		woke := false
+		for _, g := range st.gs { // nothing can run: time passes, sleepers wake up
+			if g.blocked == "sleep" {
+				g.blocked = ""
+				woke = true
+			}
+		}
+		if woke {
+			for j, g := range st.gs {
+				if !g.done && g.blocked == "" && j != st.cur {
+					st.trace = append(st.trace, fmt.Sprintf("time passes -> g%d", j))
+					e.switchTo(st, j)
+					panic(resched{})
+				}
+			}
+			if g := st.gs[st.cur]; !g.done && g.blocked == "" {
 				panic(resched{})
 			}
 		}
@@ -611,6 +632,9 @@ func (e *Engine) step(st *State) {
 		if c.closed {
 			e.goPanic(st, "send on closed channel")
 		}
+		if c.cap == 0 {
+			e.kill("incomplete: send on an unbuffered channel (rendezvous is not modelled)")
+		}
 		if len(c.buf) >= c.cap {
 			e.block(st, "chan:"+ptrKey(p))
 		}
@@ -622,6 +646,7 @@ func (e *Engine) step(st *State) {
 		}
 	case *ssa.Select:
 		ready := -1
+		var readyAll []int
 		for i, s := range x.States {
 			p := e.get(st, s.Chan).(Ptr)
 			if p.obj == 0 {
@@ -629,16 +654,27 @@ func (e *Engine) step(st *State) {
 			}
 			c := st.heap[p.obj].(*ChanObj)
 			if s.Dir == types.RecvOnly && (len(c.buf) > 0 || c.closed) {
-				ready = i
-				break
+				readyAll = append(readyAll, i)
 			}
 			if s.Dir == types.SendOnly && len(c.buf) < c.cap {
-				ready = i
-				break
+				readyAll = append(readyAll, i)
+			}
+			if s.Dir == types.SendOnly && c.cap == 0 {
+				e.kill("incomplete: send on an unbuffered channel in select (rendezvous is not modelled)")
 			}
 		}
-		if ready >= 0 || !x.Blocking {
+		if len(readyAll) > 0 || !x.Blocking {
 			e.schedPoint(st)
+		}
+		if len(readyAll) > 0 {
+			// Go chooses among the ready cases pseudo-randomly: symbolic choice
+			ready = readyAll[len(readyAll)-1]
+			for _, i := range readyAll[:len(readyAll)-1] {
+				if e.decide(st, st.fresh("selcase", 0)) {
+					ready = i
+					break
+				}
+			}
 		}
 		if ready < 0 {
 			if x.Blocking {
@@ -747,11 +783,6 @@ func (e *Engine) step(st *State) {
 	case *ssa.Go:
 		st.goroutines++
 		gf, gargs := e.callee(st, &x.Call)
-		if gf.fn != nil {
-			if to, ok := e.redirects[gf.fn.String()]; ok {
-				gf = Func{fn: e.pkg.Func(to)}
-			}
-		}
 		saved := st.frames
 		st.frames = nil
 		e.pushCall(st, gf, gargs, nil)
@@ -792,6 +823,11 @@ func (e *Engine) jump(st *State, f *Frame, to *ssa.BasicBlock) {
 			f.loops = map[*ssa.BasicBlock]int{}
 		}
 		f.loops[to]++
+		for blk := range f.loops { // re-entering an outer loop body starts its inner loops afresh
+			if blk.Index > to.Index {
+				delete(f.loops, blk)
+			}
+		}
 		if f.loops[to] > e.maxLoop {
 			e.maxLoop = f.loops[to]
 		}
@@ -1414,6 +1450,15 @@ func (e *Engine) callee(st *State, cc *ssa.CallCommon) (Func, []Value) {
 	for _, a := range cc.Args {
 		args = append(args, e.get(st, a))
 	}
+	if fv.fn != nil {
+		if to, ok := e.redirects[fv.fn.String()]; ok {
+			t := e.pkg.Func(to)
+			if t == nil {
+				e.kill("incomplete: redirect target " + to)
+			}
+			fv = Func{fn: t}
+		}
+	}
 	return fv, args
 }
 
@@ -1424,15 +1469,6 @@ func (e *Engine) call(st *State, x *ssa.Call) bool {
 	if fv.builtin != "" {
 		st.top().env[x] = e.builtin(st, fv.builtin, args, cc)
 		return false
-	}
-	if fv.fn != nil {
-		if to, ok := e.redirects[fv.fn.String()]; ok {
-			t := e.pkg.Func(to)
-			if t == nil {
-				e.kill("incomplete: redirect target " + to)
-			}
-			fv = Func{fn: t}
-		}
 	}
 	if fv.fn != nil && strings.HasPrefix(fv.fn.Name(), "verifPure_") {
 		st.top().env[x] = e.pureCall(st, fv, args)
@@ -1473,6 +1509,19 @@ func (e *Engine) builtin(st *State, name string, args []Value, cc *ssa.CallCommo
 			return n
 		case Array:
 			return BV(64, uint64(len(a.e)))
+		case Ptr:
+			if a.obj == 0 {
+				return BV(64, 0)
+			}
+			if c, ok := st.heap[a.obj].(*ChanObj); ok {
+				if name == "cap" {
+					return BV(64, uint64(c.cap))
+				}
+				return BV(64, uint64(len(c.buf)))
+			}
+			if arr, ok := st.load(a).(Array); ok { // len(*[N]T)
+				return BV(64, uint64(len(arr.e)))
+			}
 		}
 	case "append":
 		s := args[0].(Slice)
@@ -1685,6 +1734,32 @@ func (e *Engine) intrinsic(st *State, fv Func, args []Value, x *ssa.Call) bool {
 			st.race.spawn(st.cur)
 		}
 		st.trace = append(st.trace, fmt.Sprintf("spawn g%d", len(st.gs)-1))
+	case short == "vndYield":
+		// any other runnable goroutine may run now (a voluntary switch: not counted against the preemption bound)
+		g := st.gs[st.cur]
+		if g.resumed {
+			g.resumed = false
+			break
+		}
+		for j := range st.gs {
+			if j == st.cur || !e.runnable(st, j) {
+				continue
+			}
+			if e.decide(st, st.fresh("sched", 0)) {
+				st.trace = append(st.trace, fmt.Sprintf("yield g%d->g%d", st.cur, j))
+				g.resumed = true
+				e.switchTo(st, j)
+				panic(resched{})
+			}
+		}
+	case name == "time.Sleep":
+		g := st.gs[st.cur]
+		if g.quiesced {
+			g.quiesced = false
+		} else {
+			g.quiesced = true
+			e.block(st, "sleep")
+		}
 	case short == "vndQuiescence":
 		g := st.gs[st.cur]
 		if g.quiesced {
@@ -1963,6 +2038,8 @@ func (e *Engine) intrinsic(st *State, fv Func, args []Value, x *ssa.Call) bool {
 			a.e[i] = out[i]
 		}
 		set(Slice{arr: st.alloc(a), len: 32, cap: 32})
+	case name == "fmt.Printf" || name == "fmt.Println" || name == "fmt.Print":
+		set(Tuple{e: []Value{BV(64, 0), Iface{}}}) // console output is not modelled (arguments were evaluated by the caller)
 	case name == "fmt.Sprintf" || name == "fmt.Sprint":
 		// "%v" of a []uint16 is an injective function of the slice (the one place where formatted strings are compared)
 		if name == "fmt.Sprintf" && strOf(args[0]) == "%v" {
@@ -1990,7 +2067,8 @@ func (e *Engine) intrinsic(st *State, fv Func, args []Value, x *ssa.Call) bool {
 		}
 		set(Str{b: []*Term{BV(8, '?')}})
 	case name == "fmt.Errorf" || name == "errors.New" || name == "github.com/pkg/errors.Errorf" || name == "github.com/pkg/errors.New":
-		set(Iface{t: types.Universe.Lookup("error").Type(), v: BV(8, 1)}) // opaque non-nil error (prototype)
+		// opaque non-nil error with its own identity (two errors are equal only if they are the same value)
+		set(Iface{t: types.Universe.Lookup("error").Type(), v: Ptr{obj: st.alloc(Struct{})}})
 	case name == "encoding/hex.EncodeToString" && !e.realHex:
 		n := args[0].(Slice).len
 		r := Str{}
@@ -2020,9 +2098,6 @@ func (e *Engine) sha(st *State, in []*Term) []*Term {
 			allc = false
 		}
 	}
-	if allc {
-		return shaUF(in)
-	}
 	for _, a := range st.shaApps {
 		if len(a.in) == len(in) {
 			same := true
@@ -2036,21 +2111,28 @@ func (e *Engine) sha(st *State, in []*Term) []*Term {
 			}
 		}
 	}
-	out := make([]*Term, 32)
-	st.nvars++
-	for i := range out {
-		out[i] = intern(&Term{op: "var", w: 8, name: fmt.Sprintf("sha#%d[%d]", st.nvars, i)})
+	var out []*Term
+	if allc {
+		out = shaUF(in) // the real digest
+	} else {
+		out = make([]*Term, 32)
+		st.nvars++
+		for i := range out {
+			out[i] = intern(&Term{op: "var", w: 8, name: fmt.Sprintf("sha#%d[%d]", st.nvars, i)})
+		}
 	}
 	for _, a := range st.shaApps {
-		if len(a.in) != len(in) {
-			continue
-		}
-		ie, oe := Bool(true), Bool(true)
-		for i := range in {
-			ie = And(ie, Eq(a.in[i], in[i]))
-		}
+		oe := Bool(true)
 		for i := range out {
 			oe = And(oe, Eq(a.out[i], out[i]))
+		}
+		if len(a.in) != len(in) {
+			st.pc = append(st.pc, Not(oe)) // inputs of different length: assumed collision freeness
+			continue
+		}
+		ie := Bool(true)
+		for i := range in {
+			ie = And(ie, Eq(a.in[i], in[i]))
 		}
 		st.pc = append(st.pc, Eq(ie, oe)) // congruence and collision freeness in one equivalence
 	}
@@ -2173,14 +2255,76 @@ func (e *Engine) Run(entry *ssa.Function) {
 			globals[g] = st.alloc(zero(g.Type().Underlying().(*types.Pointer).Elem()))
 		}
 	}
+	// dependencies whose package-level variables are read by executed code: their globals are allocated and their
+	// initialisers are run (small allow-listed library packages and every package of the module under test);
+	// a read of any other package's global is reported as a note and yields the zero value
+	var depInits []*ssa.Function
 	for _, p := range e.prog.AllPackages() {
-		switch p.Pkg.Path() {
-		case "crypto/rand", "io", "errors", "encoding/base64", "encoding/binary", "encoding/hex":
-			for _, m := range p.Members {
-				if g, ok := m.(*ssa.Global); ok {
+		path := p.Pkg.Path()
+		alloc, run := false, false
+		switch path {
+		case "errors", "io", "bytes", "strings", "encoding/hex", "encoding/binary", "context", "encoding/base64":
+			alloc, run = true, true
+		case "crypto/rand":
+			alloc = true
+		}
+		if e.modPrefix != "" && strings.HasPrefix(path, e.modPrefix) && p != e.pkg {
+			alloc, run = true, true
+		}
+		if !alloc {
+			continue
+		}
+		for _, m := range p.Members {
+			if g, ok := m.(*ssa.Global); ok {
+				if _, have := globals[g]; !have {
 					globals[g] = st.alloc(zero(g.Type().Underlying().(*types.Pointer).Elem()))
 				}
 			}
+		}
+		if run && !e.noinit {
+			if ini := p.Func("init"); ini != nil && ini.Blocks != nil {
+				depInits = append(depInits, ini)
+			}
+		}
+	}
+	// dependency initialisers run before the package's own (order among them: errors first, it is what the others use)
+	sort.SliceStable(depInits, func(i, j int) bool {
+		return depInits[i].Pkg.Pkg.Path() != "errors" && depInits[j].Pkg.Pkg.Path() == "errors"
+	})
+	for _, ini := range depInits {
+		// each dependency initialiser runs to completion on a copy of the initial state; one that needs something the
+		// engine does not execute (reflection, unsafe) is skipped with a note and its globals stay zero
+		sub := st.clone()
+		sub.frames = nil
+		sub.gs = []*G{{}}
+		e.pushCall(sub, Func{fn: ini}, nil, nil)
+		sub.pureRoot = true
+		savedWork := e.work
+		e.work = nil
+		ok := false
+		func() {
+			defer func() {
+				if r := recover(); r != nil {
+					if pe, isEnd := r.(pathEnd); isEnd {
+						ok = pe.why == "pure-done" && len(e.work) == 0
+						return
+					}
+					if _, isStr := r.(string); isStr {
+						return // engine limitation inside a library initialiser
+					}
+					panic(r)
+				}
+			}()
+			for {
+				e.stepSafe(sub)
+			}
+		}()
+		e.work = savedWork
+		if ok {
+			st.heap = sub.heap
+			st.nvars = sub.nvars
+		} else {
+			e.incomplete["note: initialiser of "+ini.Pkg.Pkg.Path()+" not executed"]++
 		}
 	}
 	e.pushCall(st, Func{fn: entry}, nil, nil)
